@@ -7,6 +7,7 @@
 -/
 import PS.Proofs.Dfta
 import PS.Proofs.DftaUnion
+import PS.Proofs.DftaQuot
 namespace PS.C07
 open PS DFTA
 
@@ -77,6 +78,42 @@ theorem C07_map (f : Q → X) (A : DFTA σ Q) (hd : A.Det)
     (mapStates f A).accepts t = A.accepts t :=
   accepts_mapStates f A hd hinj t
 
+/-- **quotients.** Renaming the states by ANY map `c` that passes the executable congruence
+    certificate (same-named states are both final or both not; replacing one by the other at
+    one position of a rule leads to a rule whose target has the same name) keeps the language.
+    `C07_map` is the special case of an injective `c`. -/
+theorem C07_quotient (c : Q → X) (A : DFTA σ Q) (hd : A.Det)
+    (hc : congruenceCert A c (allStates A) = true) (t : Tree σ) :
+    (mapStates c A).accepts t = A.accepts t :=
+  accepts_quotient A hd c hc t
+
+/-- **minimise, determinism.** Whatever partition the refinement loop ends with, for every
+    initial class order, every `mapping` and every number of passes, the returned table has no
+    duplicate key. -/
+theorem C07_min_det (f : List Q → X) (A : DFTA σ Q) (cls0 cls1 : List Q) (fuel : Nat) (M : DFTA σ X)
+    (h : minimiseCore f A cls0 cls1 fuel = some M) : M.Det := by
+  obtain ⟨st, _, e⟩ := minimiseCore_eq f A cls0 cls1 fuel M h
+  subst e
+  exact AList.keys_nodup_ofList _
+
+/-- **minimise, language (certificate form).** `minimise` returns the quotient of its input
+    by its final partition `st`, and whenever that partition passes the congruence certificate
+    — which the driver evaluates on the model's final partition in every correspondence run —
+    the minimised automaton accepts exactly the trees the input accepts.
+    (That the refinement loop always ends in a partition passing the certificate is Appendix
+    B.3 of DESIGN.md; it is NOT machine-checked here, see meta "explanation".) -/
+theorem C07_min_lang_cert (f : List Q → X) (A : DFTA σ Q) (hd : A.Det) (cls0 cls1 : List Q)
+    (fuel : Nat) (M : DFTA σ X) (h : minimiseCore f A cls0 cls1 fuel = some M) :
+    ∃ st, minimiseState A cls0 cls1 fuel = some st ∧
+      M = mapStates (fun q => f (clsTuple st q)) A ∧
+      (congruenceCert A (fun q => f (clsTuple st q)) (allStates A) = true →
+        ∀ t, M.accepts t = A.accepts t) := by
+  obtain ⟨st, hst, e⟩ := minimiseCore_eq f A cls0 cls1 fuel M h
+  refine ⟨st, hst, e, ?_⟩
+  intro hc t
+  rw [e]
+  exact accepts_quotient A hd _ hc t
+
 /-! ### non-vacuity: cyclic automata over {z/0, s/1, f/2} -/
 namespace Example
 def z : Tree String := .node "z" []
@@ -98,6 +135,15 @@ example : (readProduct odd three).accepts (s z) = false := by decide
 set_option maxRecDepth 8000 in
 example : (readUnion odd three).accepts (s z) = true ∧ (readUnion odd three).accepts (s (s z)) = false := by decide
 example : (mapStates (· + 10) odd).accepts (s z) = true := by decide
+/-- numbers modulo 4, final: 1 and 3 — minimises to the two states of `odd` -/
+def mod4 : DFTA String Nat :=
+  { rules := [(("z", []), 0), (("s", [0]), 1), (("s", [1]), 2), (("s", [2]), 3), (("s", [3]), 0)], finals := [1, 3] }
+example : (minimise mod4).map (fun M => M.rules) =
+    some [(("z", []), [2, 0]), (("s", [[2, 0]]), [3, 1]), (("s", [[3, 1]]), [2, 0])] := by decide
+example : (minimiseState mod4 [0, 2] [1, 3] 6).map
+    (fun st => congruenceCert mod4 (clsTuple st) (allStates mod4)) = some true := by decide
+-- a non-injective renaming that is not a congruence fails the certificate
+example : congruenceCert mod4 (fun q => q % 3) (allStates mod4) = false := by decide
 end Example
 
 end PS.C07
